@@ -553,8 +553,18 @@ class Tdf:
 
         comment = comment if comment is not None else old_entry.comment
 
-        # the old block is only removed once the new one is known to be encodable
-        BTSString.write(256, comment)
+        # the old block is only removed once the new entry (format, dates, comment)
+        # and the new block are known to be encodable
+        TdfEntry(
+            type=newBlock.type,
+            format=newBlock.format.value,
+            offset=old_entry.offset,
+            size=newBlock.nBytes,
+            creation_date=newBlock.creation_date,
+            last_modification_date=newBlock.last_modification_date,
+            last_access_date=datetime.now(),
+            comment=comment,
+        )._write(BytesIO())
         newBlock._write(BytesIO())
 
         self.remove_block(newBlock.type)
